@@ -43,6 +43,8 @@ def main():
             mu = mu[0]
             name = mu["name"]
             props = [a.prop] if a.prop else (mu["prop"] if isinstance(mu["prop"], list) else [mu["prop"]])
+            if mu.get("tier") and a.tier == "quick":
+                a.tier = mu["tier"]
             edits = mu.get("edits") or [{"file": mu["file"], "old": mu["old"], "new": mu["new"]}]
             for e in edits:
                 fp = os.path.join(scratch, e["file"])
